@@ -256,10 +256,17 @@ def run(ctx, configs=None):
                         t = fi.term(p.blocks[i])
                         if t["k"] == "switch":
                             v = p.origin_op(t["discr"], i)
+                            if v[0] == "discr" and T.is_call(v[1], r"Result<T, E> as std::ops::Try>::branch$") and len(v[1][2]) == 1:
+                                v = ("discr", v[1][2][0])     # `verdict?`: Continue = 0 exactly when the verdict is Ok = 0
                             if v[0] == "discr" and T.is_call(v[1], r"MysqlShim::after_authentication$"):
-                                took_ok = p.blocks[i + 1] == (t["tgts"][t["vals"].index("0")] if "0" in t["vals"] else t["otherwise"])
+                                tk = p.blocks[i + 1] == (t["tgts"][t["vals"].index("0")] if "0" in t["vals"] else t["otherwise"])
                                 if "0" not in t["vals"] and "1" in t["vals"]:
-                                    took_ok = p.blocks[i + 1] != t["tgts"][t["vals"].index("1")]
+                                    tk = p.blocks[i + 1] != t["tgts"][t["vals"].index("1")]
+                                took_ok = tk if took_ok is None else (took_ok and tk)
+                            elif T.is_call(v, r"Result::<T, E>::(is_ok|is_err)$") and T.is_call(T.peel(v[2][0]), r"MysqlShim::after_authentication$") and "0" in t["vals"]:
+                                truth = p.blocks[i + 1] != t["tgts"][t["vals"].index("0")]
+                                tk = truth if v[1].endswith("is_ok") else not truth
+                                took_ok = tk if took_ok is None else (took_ok and tk)
                     ok = took_ok is True
                     why = "an accepting path does not depend on after_authentication returning Ok"
                     if ok:
@@ -272,7 +279,8 @@ def run(ctx, configs=None):
                        sample={"rule": "gate", "config": cfg, "path_len": len(p.blocks)} if n_ok < 3 else None)
             else:
                 rv = p.return_value()
-                if rv[0] == "agg" and rv[3] == "Err" and T.contains(rv, lambda x: T.is_call(x, r"MysqlShim::after_authentication$")):
+                if (rv[0] == "agg" and rv[3] == "Err" and T.contains(rv, lambda x: T.is_call(x, r"MysqlShim::after_authentication$"))) or \
+                        (rv[0] == "call" and "from_residual" in rv[1] and T.contains(rv, lambda x: isinstance(x, tuple) and x and x[0] == "errresidual" and T.is_call(x[1], r"MysqlShim::after_authentication$"))):
                     n_rej += 1
                     pos = auth[0][0] if auth else 0
                     errw = [(pos2, t) for pos2, bb, t in p.calls() if pos2 > pos and cname(t["func"]) == "writers::write_err"]
